@@ -4,6 +4,7 @@ import (
 	"context"
 
 	"github.com/klev-dev/klevdb/pkg/notify"
+	"github.com/klev-dev/klevdb/pkg/verifhook"
 )
 
 // TBlockingLog enhances [TLog] adding blocking consume
@@ -46,6 +47,7 @@ func (l *tlogBlocking[K, V]) Publish(tmessages []TMessage[K, V]) (int64, error) 
 		return OffsetInvalid, err
 	}
 
+	verifhook.Pause("blocking.publish.before-notify")
 	l.notify.Set(nextOffset)
 	return nextOffset, nil
 }
@@ -54,6 +56,7 @@ func (l *tlogBlocking[K, V]) ConsumeBlocking(ctx context.Context, offset int64, 
 	if err := l.notify.Wait(ctx, offset); err != nil {
 		return 0, nil, err
 	}
+	verifhook.Pause("blocking.consume.after-wait")
 	return l.Consume(offset, maxCount)
 }
 
@@ -61,6 +64,7 @@ func (l *tlogBlocking[K, V]) ConsumeByKeyBlocking(ctx context.Context, key K, em
 	if err := l.notify.Wait(ctx, offset); err != nil {
 		return 0, nil, err
 	}
+	verifhook.Pause("blocking.consume.after-wait")
 	return l.ConsumeByKey(key, empty, offset, maxCount)
 }
 
